@@ -311,6 +311,34 @@ ForcedGames ==
             o1 \in {P1, P2, PR} \ {PR}, o2 \in {P1, P2}, o3 \in {P1, P2},
             ra \in {10, 0}, rb \in {2, 12}, r2 \in {0, 1}, swap \in BOOLEAN }
 
+(* Degen: the smallest and the degenerate legal games: one or two states, the *)
+(* initial state itself final, every state final, a player state with twelve  *)
+(* actions (several into the same successor), three final states.             *)
+DegenGames ==
+    LET one(o)  == [n |-> 1, owner |-> <<o>>, reward |-> <<0>>,
+                    tr |-> << IF o = PR THEN <<Tr("", 1, 1)>> ELSE <<Tr("stay", 0, 1)>> >>, final |-> <<1>>]
+        two(o1, o2, fin, r) ==
+                   [n |-> 2, owner |-> <<o1, o2>>, reward |-> <<r, 0>>,
+                    tr |-> << IF o1 = PR THEN <<Tr("", 1, 2)>> ELSE <<Tr("go", 0, 2)>>,
+                              IF o2 = PR THEN <<Tr("", 1, 2)>> ELSE <<Tr("stay", 0, 2)>> >>, final |-> fin]
+        \* 1 chooser with twelve actions into 2 (0.5), 3 (0.75), 4 (0.75 by another sum) ; 5 lose ; 6 win
+        wide(o, r) ==
+                   [n |-> 6, owner |-> <<o, PR, PR, PR, PR, PR>>, reward |-> <<0, r[1], r[2], r[3], 0, 0>>,
+                    tr |-> << [k \in 1..12 |-> Tr("a" \o ToString(k), 0, 2 + (k % 3))],
+                              <<Tr("", 1, 6), Tr("", 1, 5)>>, <<Tr("", 3, 6), Tr("", 1, 5)>>,
+                              <<Tr("", 1, 6), Tr("", 2, 6), Tr("", 1, 5)>>,
+                              <<Tr("", 1, 5)>>, <<Tr("", 1, 6)>> >>, final |-> <<6>>]
+        \* three final states (one of them the initial state's only neighbour, one unreachable)
+        three(o, fin) ==
+                   [n |-> 5, owner |-> <<o, PR, PR, PR, PR>>, reward |-> <<1, 0, 0, 0, 0>>,
+                    tr |-> << IF o = PR THEN <<Tr("", 1, 2), Tr("", 1, 3)>> ELSE <<Tr("l", 0, 2), Tr("r", 0, 3)>>,
+                              <<Tr("", 1, 2)>>, <<Tr("", 1, 4), Tr("", 1, 5)>>, <<Tr("", 1, 4)>>, <<Tr("", 1, 5)>> >>,
+                    final |-> fin]
+    IN  {one(o) : o \in {P1, P2, PR}}
+        \cup {two(o1, o2, fin, r) : o1 \in {P1, P2, PR}, o2 \in {P1, P2, PR}, fin \in {<<2>>, <<2, 1>>, <<1>>}, r \in {0, 2}}
+        \cup {wide(o, r) : o \in {P1, P2}, r \in {<<0, 0, 0>>, <<1, 2, 2>>, <<3, 1, 2>>}}
+        \cup {three(o, fin) : o \in {P1, P2, PR}, fin \in {<<2, 4, 5>>, <<5, 2, 4>>, <<4, 2>>, <<2, 2, 4>>}}
+
 (* ZeroW: probabilistic transitions of weight 0 (never taken, but present):  *)
 (* into dead states, into the final state, next to live ones.                *)
 (*   1 chooser ; 2 chance with a zero-weight edge ; 3 live ; 4 dead ; 5 lose ; 6 win *)
